@@ -36,7 +36,7 @@ def cases(draw):
                                  palette=draw(st.sampled_from(["zero", "zero", "finite"])), objective="nonneg", directions=("max", "max", "max", "min")))
     return {
         "spec": spec,
-        "path": draw(st.sampled_from(build.BUILD_PATHS)),
+        "path": draw(st.sampled_from(build.BUILD_PATHS_LP)),
         "analysis": draw(st.sampled_from(["single_gene", "single_gene", "double_gene", "single_rxn", "double_rxn", "essential_genes", "essential_rxns"])),
         "l1": draw(st.one_of(st.none(), st.lists(st.integers(0, 20), min_size=1, max_size=4))),
         "l2": draw(st.one_of(st.none(), st.lists(st.integers(0, 20), min_size=1, max_size=3))),
